@@ -996,7 +996,7 @@ static void thread_body (void *arg) {
 	if (client_key_made) nsim_sys_pthread_setspecific (client_key, (void *) (intptr_t) (t + 1));
 	for (j = 0; j < S.nops[t]; j++) {
 		thread_op[t] = j;
-		if (S.family == FAM_GRID && t == 1 && S.ops[t][j].kind != OP_YIELD) grid_event_done = 1;
+		if (S.family == FAM_GRID && (t == 1 || S.ops[t][j].kind != OP_TIMED) && S.ops[t][j].kind != OP_YIELD) grid_event_done = 1;
 		run_op (&S.ops[t][j]);
 		/* last use of a note by this thread?  (C09 contract bookkeeping) */
 		for (w = 0; w < 5; w++) {
